@@ -59,15 +59,6 @@ class TmpModel(ClassModel):
         return None
 
 
-@contract("gunicorn.workers.base:Worker.init_signals", props=("C04",))
-class WInitSignals(Contract):
-    """TRUSTED: installs the worker's signal handlers (signal.signal / siginterrupt / set_wakeup_fd: C library)"""
-    trusted = True
-
-    def effects(self, c):
-        ev(c.st, "init_signals", None)
-
-
 @contract("abstract:WorkerRun.__call__", props=("C03", "C20"))
 class WorkerRun(Contract):
     """self.run(): the worker main loop of the concrete class (its pieces are verified separately)"""
@@ -451,3 +442,85 @@ class RunForMultiple(_SyncLoop):
 
 def _getppid_stub(ex, st, self_v, args, kwargs, node):
     return R1(ex, st, SInt(z3.Int("ppid.now")))
+
+
+# ======================================================================================================
+# Worker.init_signals (C04 mechanism: TERM only clears `alive` and does not interrupt system calls)
+# ======================================================================================================
+import signal as _sig
+
+
+def _signal_signal(ex, st, self_v, args, kwargs, node):
+    sig, handler = args
+    from pyvc.smt import const_int
+    k = const_int(sig.t)
+    if k is None:
+        raise Unsupported("signal.signal with a symbolic signal number")
+    d = dict(st.ghost.get("handlers", {}))
+    d[k] = handler
+    st.ghost["handlers"] = d
+    return R1(ex, st, NONE)
+
+
+def _siginterrupt(ex, st, self_v, args, kwargs, node):
+    from pyvc.smt import const_int
+    d = dict(st.ghost.get("siginterrupt", {}))
+    d[const_int(args[0].t)] = args[1]
+    st.ghost["siginterrupt"] = d
+    return R1(ex, st, NONE)
+
+
+def _set_wakeup_fd(ex, st, self_v, args, kwargs, node):
+    st.ghost["wakeup_fd"] = args[0]
+    return R1(ex, st, SInt(-1))
+
+
+def _handler_name(h):
+    from pyvc.values import FuncV
+    if isinstance(h, FuncV):
+        return h.qual.split(".")[-1]
+    if isinstance(h, StubV):
+        return h.name
+    return repr(h)
+
+
+class _WorkerInitSignalsReal(Contract):
+    pass
+
+
+@contract("gunicorn.workers.base:Worker.init_signals", props=("C04", "C10", "C11"))
+class WInitSignals(Contract):
+    """TERM -> handle_exit (only clears `alive`), QUIT / INT -> handle_quit, ABRT -> handle_abort, USR1 -> handle_usr1,
+    WINCH -> handle_winch; TERM and USR1 do NOT interrupt system calls (a request being read / written is not cut short);
+    every other signal of Worker.SIGNALS is reset to its default; the wake-up descriptor is the write end of the pipe"""
+
+    def cases(self, env):
+        st = State()
+        w, log = mk_worker(env, st, "Worker", "gunicorn.workers.base", PIPE=st.alloc(HList([SInt(z3.Int("pipe.r")), SInt(z3.Int("pipe.w"))])))
+        STUBS.update({"signal.signal": _signal_signal, "signal.siginterrupt": _siginterrupt, "signal.set_wakeup_fd": _set_wakeup_fd})
+        st.ghost.update({"handlers": {}, "siginterrupt": {}, "wakeup_fd": None})
+        return [("init", st, {"self": w}, {})]
+
+    def effects(self, c):
+        if "events" in c.st.ghost:
+            ev(c.st, "init_signals", None)
+
+    def raises(self, c):
+        return []
+
+    def post(self, c):
+        if c.mode == "call":
+            return []
+        g = c.st.ghost
+        h = {k: _handler_name(v) for k, v in g["handlers"].items()}
+        want = {int(_sig.SIGTERM): "handle_exit", int(_sig.SIGQUIT): "handle_quit", int(_sig.SIGINT): "handle_quit",
+                int(_sig.SIGABRT): "handle_abort", int(_sig.SIGUSR1): "handle_usr1", int(_sig.SIGWINCH): "handle_winch"}
+        si = g["siginterrupt"]
+        noint = lambda s: s in si and isinstance(si[s], SBool) and z3.is_false(si[s].t)
+        wf = g["wakeup_fd"]
+        return [("handlers-installed-as-documented", TRUE if all(h.get(s) == n for s, n in want.items()) else FALSE),
+                ("TERM-and-USR1-do-not-interrupt-system-calls", TRUE if (noint(int(_sig.SIGTERM)) and noint(int(_sig.SIGUSR1))) else FALSE),
+                ("no-other-signal-is-made-non-interrupting", TRUE if set(si) == {int(_sig.SIGTERM), int(_sig.SIGUSR1)} else FALSE),
+                ("wake-up-descriptor-is-the-pipe's-write-end", TRUE if (isinstance(wf, SInt) and wf.t.eq(z3.Int("pipe.w"))) else FALSE)]
+
+    loops = {0: dict(anchor="for s in self.SIGNALS", cands=[])}
